@@ -3,6 +3,7 @@ package c06
 
 import (
 	"fmt"
+	"github.com/hashicorp/consul/api"
 	"strings"
 	"sync"
 
@@ -66,6 +67,15 @@ func Run(c *ev.Ctx) {
 	// last phase: the cap on fine-grained watch channels is lowered to 1, so that every catalog / health query over the
 	// seed's handful of instances runs on its coarse fallback watches (whole-table channels)
 	phases = append(phases, phase{"catalog-coarse-watches", []string{"catalog"}, []string{"catalog+session", "mesh"}, []string{"catalog", "health"}, 1})
+	// node metadata: a node enters or leaves a metadata-filtered list when nothing but its metadata changes
+	phases = append(phases, phase{"node-meta", nil, []string{"node-meta"}, []string{"nodemeta"}, 2})
+	{
+		n1w := cmdlib.NodeSpec{Node: "n1", ID: "id1", Meta: map[string]string{"role": "web"}}
+		n2d := cmdlib.NodeSpec{Node: "n2", Meta: map[string]string{"role": "db"}}
+		seedsAll["node-meta"] = []world.Op{cmdlib.RegNode(n1w), cmdlib.RegNode(n2d), cmdlib.RegService(n1w, cmdlib.FWeb), cmdlib.RegService(n2d, cmdlib.FWeb2),
+			cmdlib.RegCheck(n1w, cmdlib.FC1), cmdlib.RegCheck(n1w, cmdlib.FSC1), cmdlib.RegCheck(n2d, cmdlib.CheckSpec{ID: "sc2", Status: api.HealthPassing, ServiceID: "web-2"}),
+			cmdlib.KVSpec{Verb: api.KVSet, Key: "a", Val: "x"}.Op()}
+	}
 	totalQ, totalRPC := 0, 0
 	var mu sync.Mutex
 	rpcErrors := map[string]int{}
@@ -101,6 +111,20 @@ func Run(c *ev.Ctx) {
 				continue
 			}
 			alpha = append(alpha, op)
+		}
+		if ph.Name == "node-meta" {
+			n1 := func(meta map[string]string) cmdlib.NodeSpec {
+				return cmdlib.NodeSpec{Node: "n1", ID: "id1", Meta: meta}
+			}
+			n2 := func(meta map[string]string) cmdlib.NodeSpec { return cmdlib.NodeSpec{Node: "n2", Meta: meta} }
+			alpha = []world.Op{
+				cmdlib.RegNode(n1(map[string]string{"role": "db"})), cmdlib.RegNode(n1(map[string]string{"role": "web"})), cmdlib.RegNode(n1(nil)),
+				cmdlib.RegNode(n2(map[string]string{"role": "web"})), cmdlib.RegNode(n2(map[string]string{"role": "db", "rack": "r1"})),
+				cmdlib.RegService(n1(map[string]string{"role": "db"}), cmdlib.FWeb), cmdlib.DeregService("n1", "web", ""), cmdlib.DeregService("n2", "web-2", ""),
+				cmdlib.RegCheck(n1(map[string]string{"role": "web"}), cmdlib.FC1c), cmdlib.DeregCheck("n1", "sc1", ""),
+				cmdlib.DeregNode("n1", ""), cmdlib.DeregNode("n2", ""),
+				cmdlib.KVSpec{Verb: api.KVSet, Key: "a", Val: "y"}.Op(), // an unrelated write: moves no catalog index
+			}
 		}
 		if ph.Name == "catalog-kv-session" {
 			// instances that change which results a name returns without the name's own last instance leaving:
